@@ -335,7 +335,7 @@ def _run_one(prog: Program, report: Report, g) -> int:
             for t in targets:
                 n += 1
                 if g.kind.startswith("arg:"):
-                    k = int(g.kind[4:])
+                    k = int(g.kind[4:].split(":")[0])
                     e = t.args[k] if -len(t.args) <= k < len(t.args) else None  # type: ignore[attr-defined]
                 elif g.kind == "ret":
                     e = t.value if isinstance(t, ast.Return) else t
@@ -375,8 +375,14 @@ def _run_one(prog: Program, report: Report, g) -> int:
             for t in targets:
                 n += 1
                 if g.kind.startswith("arg:"):
-                    k = int(g.kind[4:])
-                    args = t.args  # type: ignore[attr-defined]
+                    k = int(g.kind[4:].split(":")[0])
+                    args = list(t.args)  # type: ignore[attr-defined]
+                    kwname = g.kind[4:].split(":")[1] if ":" in g.kind[4:] else None
+                    if kwname and k >= len(args):
+                        # the same parameter passed by keyword (arg:<k>:<name>)
+                        kw = [q.value for q in t.keywords if q.arg == kwname]  # type: ignore[attr-defined]
+                        if kw and k == len(args):
+                            args = args + kw
                     if not (-len(args) <= k < len(args)):
                         report.violate(g.rule, v.fn, t, f"{g.why.split(';')[0]}: {one_line(t)[:100]}", f"{g.why}; argument {k} is missing", what=f"argument {k} of /{g.target}/ matches /{g.form}/")
                         continue
